@@ -75,17 +75,19 @@ func harnessC10DurableReadChain() {
 	vCover("chain-done")
 }
 
-//verif:entry property=C11 tier=both bounds="bus.Replay over the durable-streams store (paged path, real client library, model server optionally cutting responses short): log length n<=N, replay batch size b in [-1,N+1], optional failing read request" cover="nil-complete" N_quick=3 N_thorough=4
+//verif:entry property=C11 tier=both bounds="bus.Replay over the durable-streams store (paged path, real client library, model server optionally cutting responses short, lenient or strict about offsets it did not issue): log length n<=N, replay batch size b in [-1,N+1], optional failing read request" cover="nil-complete" N_quick=3 N_thorough=4
 func harnessC11DurableReplay() {
 	N := vParam("N", 3)
 	vmDSChunked = vBool()
+	vmDSStrict = vBool()
 	st, err := New(vdsServer("c11"), "s")
 	vAssert(err == nil, "store-opens")
 	n := vInt(0, N)
 	recs := dsFill(st, n)
 	b := vInt(-1, N+1)
 	bus := eventbus.New(eventbus.WithStore(st), eventbus.WithReplayBatchSize(b))
-	if vBool() {
+	armed := vBool()
+	if armed {
 		vmDSFailRead = vmDSReads + vInt(0, N)
 	}
 	got := 0
@@ -98,6 +100,9 @@ func harnessC11DurableReplay() {
 		return nil
 	})
 	vmDSFailRead = -1
+	if !armed {
+		vAssert(rerr == nil, "no-fault-no-error")
+	}
 	vAssert(got <= n, "no-extra-delivery")
 	vAssertK(inOrder, "gap-free-prefix-in-order", "KF-C11-durable-limit-skips", b > 0)
 	if rerr == nil {
